@@ -50,6 +50,10 @@ def run(ctx):
     #      of failing hooks, racing with one client-side terminator; nothing sequential
     jobs.append(("hooks", sc.gen_cfg("hooks", MaxEvents=0, MaxTerm=1, MaxSrcTerm=0, StartModes="StartOK", CfgOK="CfgHooks", Features="FeatHooks",
                                                 SeqSetup="FALSE"), dict(simulate=800 if quick else 4000, depth=400, timeout=2400, cap=350 if quick else None)))
+    # (d3) sampled: subscriber 1 through the synchronous ResolveGraphQLSubscription, incl. a request context that is already cancelled when the
+    #      call is made (the trigger it creates must still be alive for a joiner), nothing sequential
+    jobs.append(("sync", sc.gen_cfg("sync", MaxEvents=1, MaxTerm=2, MaxSrcTerm=1, StartModes="StartOK", CfgOK="CfgSync", Features="FeatSync", SeqSetup="FALSE"),
+                 dict(simulate=700 if quick else 4000, depth=400, timeout=2400, cap=250 if quick else None)))
     # (e) sampled: three subscriber slots, nothing sequential (chains of re-subscription with the same id, a joiner arriving while
     #     the trigger is torn down), CloseSubscription from the source
     jobs.append(("sim3", sc.gen_cfg("sim3", NS=3, MaxEvents=1, MaxTerm=2, MaxSrcTerm=1, MaxHB=0, UseD="FALSE", StartModes="StartOkCtx",
